@@ -587,6 +587,7 @@ int World::exec(const Op &op) {
 }
 
 void World::run(const Plan &p, const std::string &d) {
+    if (g_trace < 0) g_trace = getenv("NIXSIM_TRACE") ? 1 : 0;
     plan = p; dir = d;
     const Swarm &s = plan.swarm;
     ghosts_allowed = s.lane == "abuse" || s.lane == "durable";
